@@ -1,7 +1,7 @@
 """C06 — Integrity of signed material: no single-bit change survives."""
 import cbor2
 
-from .. import cases, corr, faults
+from .. import spec, cases, corr, faults
 from ..check import Result
 from ..driver import Driver
 from ..oracle import Oracle
@@ -64,6 +64,20 @@ def rebuild_attobj(att_obj, **replace):
         else:
             d["attStmt"] = dict(d["attStmt"], **{k: v})
     return cbor2.dumps(d)
+
+
+def jws_meaning(resp):
+    """what a compact JWS *says*: its signing input (the ASCII bytes header.payload) and the signature bytes its third
+    segment denotes. The property speaks of these; the unused trailing bits of the signature segment's last base64url
+    character denote nothing, so flipping them changes neither the signing input nor the signature."""
+    parts = bytes(resp).split(b".")
+    if len(parts) != 3:
+        return None
+    try:
+        sig = spec.lenient_b64url_decode(parts[2].decode("ascii"))
+    except UnicodeDecodeError:
+        return None
+    return parts[0] + b"." + parts[1], sig
 
 
 def work(tasks, idx):
@@ -129,6 +143,9 @@ def work(tasks, idx):
             if i % 32 == 0:
                 tie.check(cases.reg_case(c2, e), code, label=[fmt, "flip", field, i])
             res.count(f"{fmt}-flip:{field}")
+            if code["k"] == "accept" and field == "response" and jws_meaning(nb) is not None and jws_meaning(nb) == jws_meaning(target):
+                res.count(f"{fmt}-flip:response:encoding-slack-only (signing input and signature bytes unchanged)")
+                continue
             if code["k"] == "accept":
                 region = authdata_region(bytes(target), i) if field == "authData" else field
                 res.violations.append({"why": f"{fmt} registration survives flipping bit {i} of {field} ({region})",
